@@ -16,4 +16,9 @@ old = json.load(open(os.path.join(ROOT, "contracts/closure_baseline.json")))
 old["units"] = base
 json.dump(old, open(os.path.join(ROOT, "contracts/closure_baseline.json"), "w"), indent=1)
 json.dump({"_comment": "parameter names of the functions under contract on the pinned tree; the contract and hint texts are written against these names. A renamed parameter is renamed in those texts mechanically (R22).", **params}, open(os.path.join(ROOT, "contracts/param_baseline.json"), "w"), indent=1)
+# names of all crate functions on the pinned tree (a function that is not in this list is new to the crate)
+subprocess.run([os.path.join(ROOT, "tools/vx/target/release/vx"), "extract", "--repo", os.environ.get("VERIF_REPO", "/repo"), "--spec", os.path.join(ROOT, "contracts/units/skel.vspec"),
+                "--contracts", os.path.join(ROOT, "contracts"), "--out", os.path.join(d, "skel.rs"), "--map", os.path.join(d, "skel.map.json")], check=True, capture_output=True)
+names = json.load(open(os.path.join(d, "skel.map.json"))).get("crate_fn_names", [])
+json.dump({"_comment": "names of all functions of the crate (src/, tests excluded) on the pinned tree. A call from a skeletonised function to a function whose name is NOT listed here is a call to a function new to the crate; it is expanded at the call site even when it is defined in another file.", "names": names}, open(os.path.join(ROOT, "contracts/fn_baseline.json"), "w"), indent=0)
 print(base)
